@@ -139,6 +139,28 @@ def semantic_models(ctx, w, invs=("C06Exact", "C09IntegerWhenFits", "C09Rounding
     r["W"] = w
     return r
 
+def dec_cpx_models(ctx, p, s_, r_, every, invs=("C07Exact", "C08Exact")):
+    """TLC MCDecCpx: the toy decimal format (P digits, S places) on all operand pairs, Gaussian integers in -R..R on all pairs;
+    ref-selftest of the decimal / complex interpreter at the same format."""
+    beh = os.path.join(ctx.wd, "vectors_dec_%d_%d.ndjson" % (p, s_))
+    cfg = ("CONSTANTS P = %d\nS = %d\nR = %d\nEmitOn = TRUE\nEmitEvery = %d\nINIT Init\nNEXT Next\nCHECK_DEADLOCK FALSE\nINVARIANT %s Emit\n"
+           % (p, s_, r_, every, " ".join(invs)))
+    r = vlib.tlc("MCDecCpx", cfg, "%s_deccpx_%d_%d" % (ctx.prop, p, s_), workers=10, beh_out=beh, timeout=3600)
+    vlib.tlc_ok(r, "MCDecCpx")
+    log("TLC MCDecCpx P=%d S=%d R=%d: %d states, %d vectors, %.0fs%s" % (p, s_, r_, r["distinct"], r["beh"], r["wall_s"], (" VIOLATED " + str(r["violated"])) if r["violated"] else ""))
+    binary, _ = vlib.build_harness("debug")
+    st = os.path.join(ctx.wd, "selftest_dec.json")
+    job = os.path.join(ctx.wd, "selftest_dec_job.json")
+    json.dump({"mode": "selftest", "beh": beh, "stats": st}, open(job, "w"))
+    pr = subprocess.run([binary, "run", job], stdout=subprocess.PIPE, stderr=subprocess.PIPE, text=True)
+    res = json.load(open(st)) if os.path.exists(st) else {}
+    if pr.returncode != 0 or res.get("disagreements", 1) != 0:
+        raise ToolError("ref-selftest: the decimal/complex interpreter disagrees with the specification's vectors at P=%d S=%d: %s %s" % (p, s_, res.get("first"), pr.stderr[-500:]))
+    log("ref-selftest P=%d S=%d: %d vectors reproduced by the reference interpreter" % (p, s_, res["vectors"]))
+    r["selftest"] = res
+    r["W"] = "P=%d,S=%d,R=%d" % (p, s_, r_)
+    return r
+
 def replay_jobs(ctx, binary, profile, models, opts, shards_per_e=3):
     jobs = []
     for key, r in models.items():
@@ -219,7 +241,12 @@ def grammar_check(ctx, cats, n_quick, n_thorough, opts, evals=EVALS, invs=None, 
             models.update(run_compose_models(ctx, evals, 3, 3, depth=cc[1], maxtoks=cc[2], simulate=cc[0], tag="chain"))
     spec_viol = [(e, r["violated"]) for e, r in models.items() if r["violated"]]
     semr = None
-    if sem:
+    if sem and sem.get("dec"):
+        d = sem["dec"]["quick"] if ctx.quick() else sem["dec"]["thorough"]
+        semr = dec_cpx_models(ctx, d[0], d[1], d[2], d[3], sem.get("invs", ("C07Exact", "C08Exact")))
+        if semr["violated"]:
+            spec_viol.append(("MCDecCpx", semr["violated"]))
+    elif sem:
         semr = semantic_models(ctx, sem["w_quick"] if ctx.quick() else sem["w_thorough"], sem.get("invs", ("C06Exact", "C09IntegerWhenFits", "C09Rounding")))
         if semr["violated"]:
             spec_viol.append(("MCSem", semr["violated"]))
@@ -256,7 +283,7 @@ def grammar_check(ctx, cats, n_quick, n_thorough, opts, evals=EVALS, invs=None, 
     tv = trace_validate(ctx, [j for j in os.listdir(ctx.wd) if j.startswith("events_")], cap=16000 if ctx.quick() else 40000)
     nviol = vlib.report(prop, mine)
     for e, inv in spec_viol:
-        print("VIOLATION property=%s replay=%s" % (prop, models[e]["log"]))
+        print("VIOLATION property=%s replay=%s" % (prop, (models.get(e) or semr or {}).get("log", "(TLC log)")))
         log("  the specification itself violates %s for %s" % (inv, e))
         nviol += 1
     trace_cats = {"trace_status": {"C03"}, "trace_ticks": {"C02"}, "trace_pure": {"C16"}}
@@ -729,14 +756,16 @@ def c07(ctx):
     q = ctx.quick()
     return grammar_check(ctx, {"value", "ok_on_semantic_err", "err_on_defined", "profile_diff", "panic", "abort"}, {"*": 5}, {"*": 6},
                          {"assignments": 1, "boundary_pool": True, "full_placeholders": True, "max_assign": 700 if q else 8000,
-                          "event_every": 500, "event_cap": 2000, "nontrivial_min_ops": 1, "scope": SCOPE_C07}, evals=["dec"], invs=[], compose={"quick": (4, 3), "thorough": (4, 4)})
+                          "event_every": 500, "event_cap": 2000, "nontrivial_min_ops": 1, "scope": SCOPE_C07}, evals=["dec"], invs=[], compose={"quick": (4, 3), "thorough": (4, 4)},
+                         sem={"dec": {"quick": (2, 1, 3, 3), "thorough": (2, 2, 4, 1)}, "invs": ("C07Exact",)})
 
 def c08(ctx):
     q = ctx.quick()
     return grammar_check(ctx, {"value", "ok_on_semantic_err", "err_on_defined", "ok_on_reject"}, {"*": 5}, {"*": 6},
                          [{"assignments": 3, "all_functions": True, "each_function": True, "cpx_generic": True, "full_placeholders": False, "event_every": 300, "event_cap": 2000, "nontrivial_min_ops": 1},
                           {"assignments": 2, "event_every": 300, "event_cap": 1000, "nontrivial_min_ops": 1}],
-                         evals=["cpx"], invs=[], lexer={"alphabets": ["lit", "kw2"], "k_quick": 3, "k_thorough": 5})
+                         evals=["cpx"], invs=[], lexer={"alphabets": ["lit", "kw2"], "k_quick": 3, "k_thorough": 5},
+                         sem={"dec": {"quick": (1, 1, 4, 1), "thorough": (1, 1, 7, 1)}, "invs": ("C08Exact",)})
 
 def c10(ctx):
     q = ctx.quick()
